@@ -42,6 +42,10 @@ CLAIMED = {
          "Random IR trees covering every Expression/Param/BuiltInOp/CompilerOp/Coerce variant, all lowered example and generated programs are encoded and decoded and compared in canonical form (plus find_params/find_queries and the compiled transaction after identical application); 12 kinds of hostile byte strings and a list of version strings must yield Ok/Err without panic, abort or hang. Held = no difference and no crash on anything generated.",
          "equality is equality of the canonicalised Serialize output; a field hidden from Serialize would be invisible; hang = wall-clock watchdog reproduced alone with 3x budget",
          "DESIGN.md section 3 C11"),
+ "C14": ("exploration", "runtime monitor: totality oracle (panic hook with in-repo frame extraction, worker signal exits, per-case watchdog) over every public back-end entry point, checked (overflow-checks + debug-assertions) and release profiles",
+         "Lowered generator templates with type-correct but hostile arguments, stores and protocol parameters, and random well-formed IR trees a client could send, are pushed through find_params, find_queries, is_constant, apply_args, apply_fees, Node::apply(compiler), reduce, apply_inputs, compile, inputs::resolve and resolve_tx in worker subprocesses; every call must return Ok or Err. Held = no panic, abort or reproducible overrun on any driven call.",
+         "arguments are type-correct in the property's sense; stores follow the trait contract and hold amounts below 2^80 in magnitude; nothing is asserted about which of Ok/Err comes back",
+         "DESIGN.md section 3 C14"),
  "C20": ("exploration", "runtime monitor: differential oracle between a used and a fresh compiler instance over generated call histories",
          "Histories of 0..4 earlier resolutions (succeeding and failing, with and without min_utxo, 1..6 outputs) are replayed on one compiler instance before a target is resolved; the outcome (bytes, hash, fee / error kind / panic site) must equal that of a fresh identically configured instance. Held on every generated (history, target).",
          "same single-UTxO store for both runs so that hash order cannot differ; latest_tx_body is the only state the instance carries",
